@@ -47,6 +47,8 @@ def cases(draw, tier="quick"):
         slow = draw(st.integers(0, 1))
         P["w_s2c"] = [1 if slow == 0 else 10, 1 if slow == 1 else 10]
         P["w_adv"] = draw(st.sampled_from([3, 6]))
+    P["w_due"] = draw(st.sampled_from([None, None, 1, 2]))      # eventual-send turns may lag behind the network
+    P["gets_lag"] = draw(st.booleans())      # a reader that calls get_message() only after messages have arrived
     n = draw(st.integers(0, 260))
     P["tape"] = draw(st.binary(min_size=n, max_size=n))
     return P
